@@ -3,31 +3,56 @@ from .registry import AT_TB
 CHECK = {
     "level": "other",
     "level_text": "Two deciders. (1) The accounting and termination clauses are stated in Concurrency.tla (every "
-                  "transaction terminates; at quiescence no pooled connection, helper goroutine or pending future is "
-                  "outstanding), checked by TLC on the design incl. the liveness property, and validated by TLC on the "
-                  "recorded trace of every stress batch: 8x12 (thorough 24x40) concurrent global transactions (1-2 AT "
-                  "branches each, autocommit and explicit, commit and rollback, overlapping rows so that lock conflicts "
-                  "occur) through one client and shared handles while the coordinator stand-in delivers branch commits "
-                  "and rollbacks concurrently, under several GOMAXPROCS settings; after each batch the driver measures "
-                  "sql.DB InUse, physical connections, connections left in a transaction, pending futures and the "
-                  "goroutine count against the level before the batch. (2) The data-race clause is decided by the Go race "
-                  "detector running as a monitor on that workload (the driver is built with -race); each distinct report "
-                  "becomes a Race event, which the trace specification never accepts. A TLA+ model cannot observe "
-                  "memory-model races; this is said in DESIGN.md section 9 rather than hidden.",
+                  "transaction terminates, whatever its outcome; at quiescence no pooled connection, helper goroutine, "
+                  "pending future, held XA connection, prepared XA branch, owed TCC second phase, open fence transaction "
+                  "or undo row is outstanding; sessions come and go underneath), checked by TLC on the design incl. the "
+                  "liveness property, and validated by TLC on the recorded trace of every stress batch: 8x12 (thorough "
+                  "24x40) concurrent global transactions of four kinds - AT (1-2 branches, autocommit and explicit), XA "
+                  "(1-2 branches over two databases behind the XA proxy: a server that detaches prepared branches, 8.0.30, "
+                  "and an older one, 8.0.28, with database/sql's default pool), TCC (1-2 actions registered through the real "
+                  "tcc.NewTCCServiceProxy, half of them behind fence.WithFence over a fence database) and mixed (one branch "
+                  "of every kind) - committed and rolled back, with overlapping rows so that lock conflicts and lock waits "
+                  "occur, through one client and shared handles, while the coordinator stand-in delivers branch commits and "
+                  "rollbacks of all three branch types concurrently (repeating a request until the final status is "
+                  "reported) and sessions are lost and opened (3 / 8 times per batch; the client always keeps one); then a "
+                  "hot-spot phase in which 12 (24) goroutines loop over the shared read-mostly components (table-meta cache, "
+                  "undo-log manager / executor holders / parser cache / keyword table, resource-manager cache and the "
+                  "resources' keepers, context and propagation helpers, empty global transactions = id generator + session "
+                  "selection + future table, all five load balancers, executor builder and SQL parser) next to three "
+                  "goroutines running transactions and one lazy TCC registration; under several GOMAXPROCS settings. After "
+                  "each batch the driver measures sql.DB InUse of every pool (handles and the resources' inner pools), "
+                  "physical connections no pool owns (per server group), connections left in a transaction / in an XA state, "
+                  "prepared XA branches, the resource manager's keeper entries, pending futures, the goroutine count against "
+                  "the level before the batch, undo rows, per TCC branch deliveries vs. invocations of the user methods, "
+                  "the business-effect counters of the fenced actions and open fence transactions. (2) The data-race clause "
+                  "is decided by the Go race detector running as a monitor on that workload (the driver is built with "
+                  "-race); each distinct report becomes a trace of its own with a Race event, which the trace specification "
+                  "never accepts; a run-time crash of the workload (fatal error, e.g. concurrent map writes) becomes a Crash "
+                  "event. A TLA+ model cannot observe memory-model races; this is said in DESIGN.md section 9 rather than "
+                  "hidden.",
     "level_note": "Trusted: the Go race detector (finds only races the executed schedules expose), TLC, memsql, the "
-                  "coordinator stand-in. TCC and XA branches are not part of the workload yet.",
+                  "coordinator stand-in. Not in the workload: data sources opened while traffic runs, a client left "
+                  "without any session, the XA hold-time checker firing (hold time is set to 'for ever'), load-balancer "
+                  "types other than Random as the client's configured type (all five are called directly in the hot phase).",
     "technique": "TLA+ accounting/termination spec checked by TLC + TLC trace validation of stress batches; Go race "
                  "detector as a monitor for the data-race clause",
-    "explanation": "Stress batches of concurrent AT global transactions with concurrent phase two, built with -race; "
-                   "race reports, leaked connections/futures/goroutines, connections left in a transaction and hung "
-                   "transactions are events the trace specification (Concurrency_Trace.tla) rejects; the design-level "
-                   "accounting and liveness are model-checked in Concurrency.tla.",
+    "explanation": "Stress batches of concurrent AT, XA, TCC and mixed global transactions with concurrent phase two, "
+                   "session churn and a hot-spot phase over the shared components, built with -race; race reports, a crash, "
+                   "leaked connections / futures / goroutines / held XA connections / prepared XA branches / undo rows, TCC "
+                   "branches without (or with a wrong) second phase, open fence transactions, connections left in a "
+                   "transaction and hung calls are events the trace specification (Concurrency_Trace.tla) rejects; outcomes "
+                   "committed / rolledback / failed are all legal; the design-level accounting and liveness are "
+                   "model-checked in Concurrency.tla.",
     "mc": [("Concurrency", "Concurrency_MC.cfg", {"workers": 4})],
+    "mc_thorough": [("Concurrency", "Concurrency_MC.cfg", {"workers": 4}), ("Concurrency", "Concurrency_MCT.cfg", {"workers": 4})],
     "legs": [{
         "name": "stress", "driver": "stress", "race": True,
         "trace": ("Concurrency_Trace", "Concurrency_Trace.cfg"),
         "deterministic": False, "driver_timeout": 1200,
     }],
-    "assumptions": ["a batch is quiescent when all measures are back to the pre-batch level or 8 s have passed"],
+    "assumptions": ["a batch is quiescent when all measures are back to the pre-batch level, or nothing has moved for "
+                    "2.5 s, or 8 s have passed",
+                    "the coordinator stand-in never leaves the client without a session and repeats a phase-two request "
+                    "at most five times"],
     "trusted_base": AT_TB + ["the Go race detector"],
 }
